@@ -183,8 +183,16 @@ def dispatch(ctx, rule='dispatch-arm-matches-case-label'):
                     th = [x for x in fn.walk(default) if x['k'] == 'CXXThrowExpr']
                     if not th or 'invalid_argument' not in th[0].get('thrown', ''):
                         problems.append('default arm does not throw std::invalid_argument')
+                # the switch is the only validation of the rule: no normal return may bypass it
+                cid = fn.strip(fn.nodes[s['cond']])['id']
+                hit = paths.search(fn, [], stop=lambda n, cid=cid, s=s: n['id'] in (cid, s['cond']) or fn.within(n, s['cond']),
+                                   target=lambda n: n['k'] == 'ReturnStmt', include_entry=True, exit_is_target=lambda b: True, normal_only=True)
+                if hit is not None:
+                    last = [h for h in hit if isinstance(h, dict) and h['k'] in ('ReturnStmt', 'IfStmt')] or [h for h in hit if isinstance(h, dict)]
+                    problems.append('a normal return bypasses the switch (and with it the rejection of unsupported rules)%s' %
+                                    (': via `%s`' % fn.s(last[-1]['id'])[:60] if last else ''))
                 ctx.check(not problems, rule, inst, fn.qname,
-                          '%d cases build the same-named sorter and break; the other %d enumerators reach a throwing default' %
+                          '%d cases build the same-named sorter and break; the other %d enumerators reach a throwing default; no return bypasses the switch' %
                           (len(handled), len(names) - len(handled)) if not problems else '; '.join(problems))
     if switches < 3:
         raise AnalysisBroken('only %d dispatch switches analysed' % switches)
